@@ -14,6 +14,11 @@ Model driver for C10 (area assembly).  Same op lines as harness/c10.cpp:
   judge <mode> <cfg> w<id>:<role> id:x:y ... ## O:id@x@y,..|I:..|O:..
       -> the executable specification `Valid` applied to the rings the real assembler
          produced: "ok" or "bad:<failing clauses>"
+  rb x1 y1 x2 y2 ...     -> ring building step by step (model of create_locations_list,
+         find_split_locations, create_rings_simple_case incl. find_enclosing_ring, and the cutting
+         into partial rings of create_rings_complex_case):
+         "n=N ix=K [segs=.. locs=item.rev,.. open=N opens=x:y;.. splits=x:y;.. ret=0|1
+            (simple rings=O:item.rev,..:sum|I<outer>:..  |  complex pieces=item.rev,..|..)]"
 -/
 import Osmium.Model.Area
 import Driver.Common
@@ -113,6 +118,36 @@ def parseMP (tok : String) : Option MP :=
 def showPoints (l : List Vec) : String :=
   ";".intercalate (l.map fun v => s!"{v.x},{v.y}")
 
+def showEntries (r : List SLoc) : String :=
+  ",".intercalate (r.map fun x => s!"{x.item}.{b01 x.reverse}")
+
+def showLocs (l : List Vec) : String :=
+  if l.isEmpty then "-" else ";".intercalate (l.map fun v => s!"{v.x}:{v.y}")
+
+def ringBuilding (input : List Seg) : String :=
+  let segs := eraseDuplicates (sortSegs input)
+  if segs.isEmpty then "n=0"
+  else
+    let ix := findIntersections segs
+    if ix > 0 then s!"n={segs.length} ix={ix}"
+    else
+      let locs := locationsList segs
+      let (opens, splits) := findSplitLocations segs
+      let head := s!"n={segs.length} ix=0 segs={showSegs segs} locs={showEntries locs} open={opens.length} opens={showLocs (opens.map (SLoc.loc segs))} splits={showLocs splits} ret={b01 opens.isEmpty}"
+      if !opens.isEmpty then head
+      else if splits.isEmpty then
+        match createRingsSimple (findEnclosingRing segs) segs with
+        | none => head ++ " simple assert"
+        | some (rings, _) =>
+          head ++ " simple rings=" ++ "|".intercalate (rings.map fun r =>
+            (match r.outer with | none => "O" | some k => s!"I{k}") ++ ":" ++ showEntries r.segs ++ ":" ++
+              toString (ringOf segs r.segs).sum)
+      else if splits.length > 100 then head ++ " toomany"
+      else
+        match createPieces segs splits with
+        | none => head ++ " complex assert"
+        | some (pieces, _) => head ++ " complex pieces=" ++ "|".intercalate (pieces.map showEntries)
+
 def step (line : String) : String :=
   match words line with
   | "seg" :: rest =>
@@ -142,6 +177,10 @@ def step (line : String) : String :=
       let r := ringOfPoints pts
       let f := r.fixDirection (k == "o")
       s!"sum={r.sum} cw={b01 r.isCw} fixed={showPoints f.points} fsum={f.sum}"
+    | none => "bad-op"
+  | "rb" :: rest =>
+    match (ints rest).bind segsOfInts with
+    | some l => if l.any (fun s => s.first == s.second) then "bad-op" else ringBuilding l
     | none => "bad-op"
   | "asm" :: mode :: cfg :: rest =>
     match parseWays rest, cfg.toNat? with
